@@ -48,7 +48,7 @@ CLAIMED.update({
                 text='for every tree within the shape bound and every token/pos within the length bound (each character a solver variable over printable non-blank text without backslash): reading the printed AUTO line gives the same categories, shape, head flags, pos and escaped words, reprinting reproduces the line, conll fragments concatenate to it'),
     'C18': dict(engine='P', design='§8 C18', technique='bounded symbolic execution of to_string over symbolic format sequences (k-way forks) and symbolic tokens; deep snapshots compared after every rendering; replay with real lxml/json',
                 text='for every sequence of 2 (3) output formats applied to the same result objects within the bounds, every tree/category/token is unchanged after every rendering and the last output equals the rendering of a fresh copy'),
-    'C19': dict(engine='P', design='§8 C19', technique='symbolic execution (forks over lexicon, rule results, unary steps, batch position; symbolic token) of the real rule functions building derivations, rendered by every formatter; replay with real lxml/json',
+    'C19': dict(engine='P+N', design='§8 C19', technique='symbolic execution (forks over lexicon, rule results, unary steps, batch position; symbolic token) of the real rule functions building derivations, rendered by every formatter; replay with real lxml/json; plus a concrete stage: results of the natively built parser for parsable, rootless, analysis-free, too long and out-of-steps sentences rendered by every format',
                 text='every derivation of <= 3 leaves the real grammars license over the lexicon, every label they can return (one licensed example each), and the failure placeholder alone or inside a batch render without error in every CLI format except the two that need nltk, and the other sentences of the batch appear in the output'),
     'C20': dict(engine='P', design='§8 C20', technique='bounded symbolic execution of ptb_of -> read_ptb and ja_of -> read_ccgbank on z3 with symbolic tokens, labels and annotations; every proper prefix of a PTB line; replay on real files',
                 text='within the bounds PTB and Japanese-bank text written by depccg reads back to the same categories, shape, words (and rule symbols for ja), with and without bank annotations; truncated PTB lines are rejected; one recorded finding (PTB tokens beginning with "(" or ending with ")")'),
